@@ -132,6 +132,14 @@ def gen_cases(tier, rng):
                 ops += ['t' + k, 'c' + _hex('|'), 'ttx', 'GA%s:%s' % (_hex('name'), _hex('val'))]
                 ops.append(_msg(ts=86399, us=7042, err=-3, line=7))
                 cases.append(_finish(ops))
+    # custom date formats whose expansion begins or ends with blanks (%e, %k, %l pad with a blank; literal blanks):
+    # the field is exactly the expansion, in every width and alignment, for one- and two-digit days and hours
+    for fmt in ('%e.%m.%Y', '%k:%M', '%l %p', ' %H', '  %d  ', '%e', '%t%H'):
+        for ts in (86400 * 0 + 3600 * 5 + 61, 86400 * 8 + 3600 * 9, 86400 * 9 + 3600 * 10, 86400 * 29 + 3600 * 23 + 3599):
+            for k in ('da', 'ti', 'dt'):
+                for opt in ([], ['w14'], ['w14', 'l'], ['w2']):
+                    ops = ['K~', 'c' + _hex('[')] + opt + ['f' + _hex(fmt), 't' + k, 'c' + _hex(']'), _msg(ts=ts, us=1)]
+                    cases.append(_finish(ops))
     # option reset: each option before the first field only, all kind pairs of a sample
     sample = ['da', 'ms', 'pi', 'le', 'tx', 'at', 'co', 'dt']
     for k1 in KINDS:
